@@ -55,6 +55,7 @@ func (e *Engine) callValue(st *State, fr *Frame, c *ssa.CallCommon, fn Val, args
 		st.check("nil-call", name, not(eq(fn.S, "0")), pos)
 		e.callbackEvent(st, fr, c, fn, args, pos, ins)
 		res := e.unknownCall(st, "callback:"+e.srcSnippet(fr.fn, pos), args, resT, false)
+		e.callbackResult(st, fr, c, res, args)
 		setRes(res)
 		return
 	}
@@ -299,7 +300,9 @@ func (e *Engine) callInvoke(st *State, fr *Frame, c *ssa.CallCommon, recv Val, a
 	}
 	e.callbackEvent(st, fr, c, recv, args, pos, ins)
 	e.unmodelledIface[key] = true
-	setRes(e.unknownCall(st, "callback:"+key, args, resT, false))
+	ires := e.unknownCall(st, "callback:"+key, args, resT, false)
+	e.callbackResult(st, fr, c, ires, args)
+	setRes(ires)
 }
 
 // ---------------------------------------------------------------------------------------
@@ -728,5 +731,29 @@ func (e *Engine) staticCallEvent(st *State, fr *Frame, callee *ssa.Function, arg
 		}
 		env := e.eventEnv(st, fr, ev, args)
 		e.runEvent(st, fr, ev, env, "call("+ev.Target+")", pos, ins)
+	}
+}
+
+// callbackResult: "assume-result" clauses of the matching on-call event: configuration assumptions about what a
+// callback returns (e.g. factories return non-nil objects). They are assumptions, listed in the evidence.
+func (e *Engine) callbackResult(st *State, fr *Frame, c *ssa.CallCommon, res Val, args []Val) {
+	ct := e.contractFor(fr.fn)
+	if ct == nil {
+		return
+	}
+	target := e.exprText(fr.fn, c.Value)
+	if c.IsInvoke() {
+		target += "." + c.Method.Name()
+	}
+	for _, ev := range ct.Events {
+		if ev.Kind != "on-call" || ev.Target != target || len(ev.Results) == 0 {
+			continue
+		}
+		env := e.eventEnv(st, fr, ev, args)
+		env.vars["result"] = res
+		for _, r := range ev.Results {
+			e.assumptions["callback result assumed in "+funcDisplayName(fr.fn)+": "+target+" returns "+r.Text] = true
+			st.assume(env.evalBool(r.Expr))
+		}
 	}
 }
